@@ -1,7 +1,7 @@
-(* C03: machine instance (Model/Stack.v + Spec/C03Spec.v). *)
+(* C03: machine instance (Model/Stack.v + overlap layer Model/StackX.v, Spec/C03Spec.v lifted by Spec/StackXSpec.v). *)
 From Verif Require Import Base.Prelude Base.Machine.
-From Verif Require Import Model.Stack Model.StackWire Spec.C03Spec.
+From Verif Require Import Model.Stack Model.StackWire Model.StackX Spec.StackXSpec Spec.C03Spec.
 
 Definition init := Build_full Stack.init minit minit sinit.
-Definition fstep := full_step step mon scope excuses parse_op print_obs parse_obs.
-Definition frun := full_run step mon scope excuses parse_op print_obs parse_obs init.
+Definition fstep := full_step xstep (xmon mon) (xscope scope) excuses parse_xop print_obs parse_obs.
+Definition frun := full_run xstep (xmon mon) (xscope scope) excuses parse_xop print_obs parse_obs init.
